@@ -710,15 +710,12 @@ def callMethodL (c : ECfg) (L : Lim) (ev : EvL) (C : Ctx) (bad : Eval.Err) (r : 
     withIter c L bad r (unpackNames ev C bad names) fun nm s => do
       measureEach L (nm.1.map (sizeofV c))
       let n := nm.2.length
-      -- `islice(sequence, len(args) + 1)` reaches the end of a source that raises
-      match (if s.1.length < n + 1 then s.2 else none) with
+      -- `islice(sequence, len(args) + 1)` reaches the end of a source that raises; without names
+      -- `chain(lst, sequence)` consumes the rest (the limiter raises at item N + 1, a raising source raises)
+      match (if n = 0 || s.1.length < n + 1 then s.2 else none) with
       | some er => .error er
       | none =>
-      if n = 0 then
-        -- `chain(lst, sequence)` consumes the rest: the limiter raises at item N + 1
-        match s.2 with
-        | some er => if isLim er then .error er else pure (.ctx ({ vars := bindNamed [] (bindPos 1 s.1) } :: C))
-        | none => pure (.ctx ({ vars := bindNamed [] (bindPos 1 s.1) } :: C))
+      if n = 0 then pure (.ctx ({ vars := bindNamed [] (bindPos 1 s.1) } :: C))
       else if (s.1.take (n + 1)).length != n then .error (.base .value)
       else pure (.ctx ({ vars := bindNamed [] (nm.2.zip s.1) } :: C))
   | .let_, _ | .with_, _ | .def_, _ | .list, _ | .dict, _ => .error (.base .unknownMethod)
